@@ -173,6 +173,27 @@ def run(check):
   # ------------------------------------------------------------------ lists
   r_l = check.rule('R-C12-lists', 5, 'a list matches iff some pattern line of its file searches the name')
   rl = repo.cls('carbon.regexlist', 'RegexList')
+  # "already read" is decided on the file's modification time at full (sub-second) precision: a whole-second stamp
+  # (os.stat(f)[ST_MTIME], int(...)) makes a second version written within the same second look already read
+  rdl = rl.methods.get('read_list')
+  if rdl is not None:
+    from ..paths import mentions
+    from ..rulelib import ValueNumbers
+    vn_r = ValueNumbers(cx, rdl, multi=True)
+    for cmp_ in [x for x in walk_no_nested(rdl.node, include_self=False) if isinstance(x, ast.Compare) and
+                 'rules_last_read' in unparse(x)]:
+      other = cmp_.left if 'rules_last_read' in unparse(cmp_.comparators[0]) else cmp_.comparators[0]
+      t_ = vn_r.term(other, cmp_)
+      truncated = mentions(t_, lambda x: isinstance(x, tuple) and (
+        (x[0] in ('sub', 'field') and mentions(x[1], lambda y: isinstance(y, tuple) and y[0] == 'call' and str(y[1]).endswith('stat'))) or
+        (x[0] == 'call' and x[1] in ('int', 'round', 'math.floor', 'floor')) or
+        (x[0] == 'binop' and x[1] == 'FloorDiv')))
+      if truncated:
+        r_l.violate('list reload decided on whole seconds', rdl, cmp_, 'the modification time compared with rules_last_read (`%s`) is '
+                    'truncated to whole seconds: a list file rewritten within the second of the previous read is taken for already read '
+                    'and the stale patterns stay in force' % unparse(other))
+      else:
+        r_l.ok('reload decided on the full-precision modification time', rdl.loc(cmp_))
   cont = rl.methods.get('__contains__')
   if cont is None:
     r_l.cannot_decide('RegexList.__contains__ not found')
